@@ -42,7 +42,9 @@ def build_and_compare(d, M, T):
     atmvol, atmcon = num(d['atmvol']), num(d['atmcon'])
     pivot = num(d['pivot']) if d.get('pivot') else None
     shift = num(d['shift']) if d.get('shift') else None
-    geo, mesh = GB.build(M, family, inp, d['convention'], d['atm'], d['order'])
+    built = d.get('built_atm')
+    geo, mesh = GB.build(M, family, inp, d['convention'], d['atm'] if built is None else built, d['order'])
+    if built is not None: geo.atmosphere_type = d['atm']
     blockmap = GB.make_blockmap(geo) if d['use_map'] else {}
     mesh2, surf = GB.configure(geo, mesh, d['angle'], atmvol, atmcon, surfaces, d.get('rot'), pivot, shift)
     grid = T.t2grid().fromgeo(geo, blockmap)
